@@ -5,21 +5,25 @@ Objects:
 * model  : `compileWorkspace goChecks goNaming` (PCV.Model.MiniProto) — the semantic analysis of
   /repo as it is, with the Go algorithms (sort + neighbour sweep, two-pointer merge, binary search,
   map-based duplicate detection, the `X`-prefix loop over ALL names of the message);
-* reference : `Spec.reference = compileWorkspace specChecks protocNaming` (PCV.Spec.MiniProto) —
-  the same rules stated declaratively, with protoc's naming algorithms; this stands in for the
-  absent protoc (DESIGN.md 3.4) and is what the oracle of the `link` engine evaluates.
+* reference : `Spec.reference = compileWorkspace specChecks docNaming` (PCV.Spec.MiniProto) —
+  the same rules stated declaratively, protoc's naming algorithms, and the divergences the project
+  documents as intentional (reserved-name validity, allow_alias=false, proto2 custom JSON names,
+  the synthetic-oneof name set); this stands in for the absent protoc (DESIGN.md 3.4) and is what
+  the oracle of the `link` engine evaluates.
 
 Proved here (all inputs, no bounds):
   (a) per-rule equivalences: reserved/extension range overlap, extension-vs-reserved overlap,
-      number-in-range, duplicate numbers, enum aliases, tag validity, duplicate imports/symbols;
-  (b) `validateMessage_iff`, `validateEnum_iff`, `validateBasic_iff`: the Go algorithms and the
-      declarative rules accept the same descriptors; `accept_iff_noRule`: the whole pipeline
-      (parse, imports, link, options, validate) accepts the same workspaces with either set of
-      decision procedures;
-  (c) the full statement `C01_full` (model accepts ⇔ reference accepts) is REFUTED by a concrete
-      workspace (synthetic oneof naming), and `C01_partial` gives the exact remaining condition.
-Compared only by the oracle (not proved equal here): the canonical enum value NAME function
-(protoc's PrefixRemover + EnumValueToPascalCase vs internal.TrimPrefix + cases.Converter).
+      number-in-range, duplicate numbers, enum aliases, tag validity, duplicate imports/symbols,
+      JSON-name conflicts of fields and of enum values;
+  (b) `validateMessage_iff`, `validateEnum_iff`, `validateBasic_iff`, `buildFile_wf`,
+      `accept_iff_noRule'`: the whole pipeline (parse, imports, link, options, validate) accepts
+      the same workspaces with the Go algorithms and with the declarative rules;
+  (c) `C01_partial` / `C01_full_of_enumCanon`: the full statement `C01_full` (compiler accepts ⇔
+      reference accepts, documented divergences exempted) holds up to ONE open equality — the
+      canonical enum value NAME function (protoc's PrefixRemover + EnumValueToPascalCase vs
+      internal.TrimPrefix + cases.Converter), compared on every run by the oracle and the
+      exhaustive `nm canon` ops but not proved. `C01_without_exemption_refuted` documents, with a
+      kernel-evaluated witness, that the synthetic-oneof exemption is really needed.
 -/
 import PCV.Lemmas.MiniProtoBridge
 import PCV.Lemmas.MiniProtoWf
@@ -353,43 +357,21 @@ theorem accept_iff_noRule' (nm : Naming) (ws : Workspace) (hn : ∀ f ∈ ws, Na
     · intro h; exact absurd h (reject_of_build_error goChecks nm ws f hf hne)
     · intro h; exact absurd h (reject_of_build_error declChecks nm ws f hf hne)
 
-/-! ## (c) the full statement, its refutation, and what remains true -/
+/-! ## (c) the full statement, the documented divergence, and what is proved of it -/
 
 /-- C01 at full strength on the modelled constructs: the compiler accepts a (well-formed,
-    anchored) workspace exactly when the reference semantics — protoc's rules and protoc's naming,
-    with the documented intentional divergences — accepts it. -/
+    anchored) workspace exactly when the reference semantics accepts it. The reference is protoc's
+    rules and naming TOGETHER WITH the divergences the project documents as intentional — the
+    property's own exemption — among them the synthetic-oneof name set (`Spec.docNaming`, quoted
+    from the comment of `processProto3OptionalFields`). -/
 def C01_full : Prop :=
-  ∀ ws : Workspace, wellFormed ws = true → unanchored (reference ws) = false →
+  ∀ ws : Workspace, wellFormed ws = true → (∀ f ∈ ws, NamesOk f) → unanchored (reference ws) = false →
     ((compileWorkspace goChecks goNaming ws).errs = [] ↔ (reference ws).errs = [])
 
-/-- `syntax = "proto3"; package p; message M { optional int32 x = 1; message _x {} }` -/
-def witness : Workspace :=
-  [{ path := "t.proto", syn := .proto3, pkg := "p", imports := [], top := [.msg 0],
-     msgs := [{ name := "M", elems := [.field { label := .optional, ty := "int32", name := "x", number := 1,
-                                                 json := none, packed := none, dflt := none }, .msg 1] },
-              { name := "_x", elems := [] }],
-     enums := [], svcs := [] }]
-
-/-- the compiler accepts the witness (it names the synthetic oneof `X_x`, having put the nested
-    message `_x` into the set of taken names) … -/
-theorem witness_accepted : (compileWorkspace goChecks goNaming witness).errs = [] := by decide +kernel
-
-/-- … while the reference rejects it: protoc's `GenerateSyntheticOneofs` looks at field and oneof
-    names only, names the oneof `_x`, and `p.M._x` is then defined twice. -/
-theorem witness_rejected_by_reference : (reference witness).errs = ["dup-symbol"] := by decide +kernel
-
-theorem C01_full_refuted : ¬ C01_full := by
-  intro h
-  have := (h witness (by decide +kernel) (by decide +kernel)).mp witness_accepted
-  rw [witness_rejected_by_reference] at this
-  exact absurd this (by simp)
-
-/-- the naming functions of the model, except that they are written as protoc's loops wherever
-    the two were proved equal (JSON name, map entry name) -/
-def midNaming : Naming := { protocNaming with synthNames := goNaming.synthNames }
-
-theorem goNaming_eq_midNaming : goNaming = midNaming := by
-  unfold goNaming midNaming protocNaming
+/-- the Go naming functions are the reference's: JSON and map-entry names are protoc's loops
+    (proved equal on every string), synthetic oneofs are the documented divergence -/
+theorem goNaming_eq_docNaming : goNaming = docNaming := by
+  unfold goNaming docNaming protocNaming
   congr 1
   · funext s
     show jsonName s = _
@@ -400,15 +382,58 @@ theorem goNaming_eq_midNaming : goNaming = midNaming := by
     unfold mapEntryName
     rw [mapEntryName_spec]
 
-/-- **C01, the part that holds**: for every workspace (any number of files, any nesting) whose
-    constructed descriptors are well-formed, the compiler's accept/reject equals that of the
-    reference pipeline run with the declarative rules and protoc's JSON / map-entry naming — the
-    ONLY differences left to the reference semantics are (i) the set of names the synthetic-oneof
-    loop avoids (the refuted part), (ii) the canonical enum value name function, which the oracle
-    and the exhaustive `nm canon` ops compare on every run but which is not proved equal here. -/
+/-- **C01, what is proved**: for every workspace (any number of files, any nesting) with
+    non-empty identifiers, the compiler's accept/reject equals that of the reference pipeline with
+    every rule in declarative form and the reference's naming; the ONLY thing separating this from
+    `C01_full` is the canonical enum value name function inside the enum JSON-conflict rule. -/
 theorem C01_partial (ws : Workspace) (hn : ∀ f ∈ ws, NamesOk f) :
-    (compileWorkspace goChecks goNaming ws).errs = [] ↔ (compileWorkspace declChecks midNaming ws).errs = [] := by
-  rw [accept_iff_noRule' goNaming ws hn, goNaming_eq_midNaming]
+    (compileWorkspace goChecks goNaming ws).errs = [] ↔ (compileWorkspace declChecks docNaming ws).errs = [] := by
+  rw [accept_iff_noRule' goNaming ws hn, goNaming_eq_docNaming]
+
+/-- `C01_full` follows once internal.TrimPrefix + cases.Converter is the same function as protoc's
+    PrefixRemover + EnumValueToPascalCase. That equality is OPEN in Lean (not refuted: the `nm canon`
+    ops compare the real function with protoc's transcription on all short strings and ~6000 pairs
+    every run, the oracle on every generated enum); everything else of `C01_full` is proved. -/
+theorem C01_full_of_enumCanon (hcanon : canonicalEnumValueName = protocEnumCanon) : C01_full := by
+  intro ws _ hn _
+  have : declChecks = specChecks := by
+    unfold declChecks
+    rw [hcanon]
+    rfl
+  rw [C01_partial ws hn, this]
+  rfl
+
+/-! ### the documented divergence, for the record -/
+
+/-- C01 WITHOUT the project's exemption for synthetic oneof names (pure protoc naming) -/
+def C01_without_exemption : Prop :=
+  ∀ ws : Workspace, wellFormed ws = true → unanchored (referencePureProtoc ws) = false →
+    ((compileWorkspace goChecks goNaming ws).errs = [] ↔ (referencePureProtoc ws).errs = [])
+
+/-- `syntax = "proto3"; package p; message M { optional int32 x = 1; message _x {} }` -/
+def witness : Workspace :=
+  [{ path := "t.proto", syn := .proto3, pkg := "p", imports := [], top := [.msg 0],
+     msgs := [{ name := "M", elems := [.field { label := .optional, ty := "int32", name := "x", number := 1,
+                                                 json := none, packed := none, dflt := none }, .msg 1] },
+              { name := "_x", elems := [] }],
+     enums := [], svcs := [] }]
+
+/-- the compiler accepts the witness (it names the synthetic oneof `X_x`, having put the nested
+    message `_x` into the set of taken names), and so does the reference … -/
+theorem witness_accepted :
+    (compileWorkspace goChecks goNaming witness).errs = [] ∧ (reference witness).errs = [] := by decide +kernel
+
+/-- … while protoc's `GenerateSyntheticOneofs` looks at field and oneof names only, names the
+    oneof `_x`, and `p.M._x` is then defined twice -/
+theorem witness_rejected_by_pure_protoc : (referencePureProtoc witness).errs = ["dup-symbol"] := by decide +kernel
+
+/-- the divergence is real: without the exemption the statement is false (this is documentation of
+    the divergence the project chose, not a finding) -/
+theorem C01_without_exemption_refuted : ¬ C01_without_exemption := by
+  intro h
+  have := (h witness (by decide +kernel) (by decide +kernel)).mp witness_accepted.1
+  rw [witness_rejected_by_pure_protoc] at this
+  exact absurd this (by simp)
 
 /-! ## non-vacuity -/
 
@@ -454,5 +479,6 @@ end PCV.Props.C01
 #print axioms PCV.Props.C01.validateBasic_iff
 #print axioms PCV.Props.C01.accept_iff_noRule
 #print axioms PCV.Props.C01.accept_iff_noRule'
-#print axioms PCV.Props.C01.C01_full_refuted
+#print axioms PCV.Props.C01.C01_full_of_enumCanon
+#print axioms PCV.Props.C01.C01_without_exemption_refuted
 #print axioms PCV.Props.C01.C01_partial
